@@ -29,10 +29,10 @@ class Raised:
 def call(f, *a, **k):
     """Run f; return its value or a Raised marker (harness exceptions such as
     timeouts are re-raised)."""
-    from .errors import HarnessSignal
+    from .errors import HarnessSignal, DrawBudgetExceeded
     try:
         return f(*a, **k)
-    except HarnessSignal:
+    except (HarnessSignal, DrawBudgetExceeded):
         raise
     except (KeyboardInterrupt, SystemExit):
         raise
